@@ -182,7 +182,7 @@ fn iter_module_reset_nf3() {
 // @harness props=C25 tier=quick timeout=600
 #[kani::proof]
 #[kani::stub(alloc::fmt::format, crate::kh::no_format)]
-#[kani::unwind(6)]
+#[kani::unwind(10)]
 fn iter_module_empty() {
     let skip: [u32; 2] = kani::any();
     let mut it = ModuleSubIterator::new(Vec::new(), skip_vec(&skip));
@@ -210,12 +210,12 @@ fn all_skipped_case(nf: usize) {
 // @harness props=C25 tier=quick timeout=600
 #[kani::proof]
 #[kani::stub(alloc::fmt::format, crate::kh::no_format)]
-#[kani::unwind(6)]
+#[kani::unwind(10)]
 fn iter_module_all_skipped_nf1() { all_skipped_case(1) }
 // @harness props=C25 tier=quick timeout=600
 #[kani::proof]
 #[kani::stub(alloc::fmt::format, crate::kh::no_format)]
-#[kani::unwind(6)]
+#[kani::unwind(10)]
 fn iter_module_all_skipped_nf2() { all_skipped_case(2) }
 
 // ---------------------------------------------------------------- component level (C26)
@@ -300,7 +300,7 @@ fn iter_component_matches_module_b() { comp_case(false, false) }
 // @bounds real Module::default() (no functions), skip list of 2 symbolic ids
 #[kani::proof]
 #[kani::stub(alloc::fmt::format, crate::kh::no_format)]
-#[kani::unwind(6)]
+#[kani::unwind(10)]
 fn iter_moduleiterator_empty_module() {
     use crate::iterator::iterator_trait::Iterator;
     let mut module = crate::ir::module::Module::default();
